@@ -16,5 +16,5 @@ func main() {
 			k.Thunk, k.BadThunk = 0, 0
 		}
 		return k
-	}, CompareLog: true, PlanReuse: true}, 1200, 120000)
+	}, CompareLog: true, PlanReuse: true, PlanModel: true}, 1200, 120000)
 }
